@@ -60,11 +60,15 @@ func ParseString(path, content string) (m *ir.Module, err error) {
 			if _, ok := e.(runtime.Error); ok {
 				panic(e)
 			}
-			ee, ok := e.(error)
-			if !ok {
+			switch e := e.(type) {
+			case error:
+				m, err = nil, errors.Wrapf(e, "unable to translate %q into an IR module", path)
+			case string:
+				// A few sites report with panic(fmt.Sprintf(...)).
+				m, err = nil, errors.Errorf("unable to translate %q into an IR module: %s", path, e)
+			default:
 				panic(e)
 			}
-			m, err = nil, errors.Wrapf(ee, "unable to translate %q into an IR module", path)
 		}
 	}()
 	parseStart := time.Now()
